@@ -314,12 +314,42 @@ def hostile_objects(rng, fc, maxlen):
     return out
 
 
+def near_valid_objects(rng, fc, maxlen):
+    """well-formed headers for this function with the range / count field of exactly one of them replaced by an
+    edge pair (inverted, empty, maximal): everything else in the fragment parses, so the odd field is what reaches
+    the layer above the parser (seeded change C01_a: READ with start > stop)"""
+    hs = []
+    for _ in range(rng.range(1, 3)):
+        room = maxlen - sum(len(h) for h in hs) - 11
+        if room <= 0: break
+        h = wellformed_header(rng, fc, min(room, 80))
+        if h is not None: hs.append(h)
+    if not hs:
+        return one_header(rng, fc, maxlen)[:maxlen]
+    i = rng.below(len(hs))
+    h = bytearray(hs[i])
+    q = h[2]
+    if q == D.Q_RANGE8 and len(h) >= 5:
+        h[3:5] = bytes(rng.choice(RANGES8 + [(10, 5), (1, 0), (255, 0)]))
+    elif q == D.Q_RANGE16 and len(h) >= 7:
+        a, b = rng.choice(RANGES16 + [(10, 5), (1, 0), (65535, 0)])
+        h[3:7] = D.le(a, 2) + D.le(b, 2)
+    elif q in (D.Q_COUNT8, D.Q_PREFIX8) and len(h) >= 4:
+        h[3] = rng.choice(COUNTS8)
+    elif q in (D.Q_COUNT16, D.Q_PREFIX16) and len(h) >= 5:
+        h[3:5] = D.le(rng.choice(COUNTS16), 2)
+    hs[i] = bytes(h)
+    return b"".join(hs)[:maxlen]
+
+
 def hostile_request(rng, seq, maxlen):
     r = rng.below(20)
     fc = rng.choice(REQ_FUNCS) if r < 11 else rng.choice(FUNCS) if r < 19 else rng.below(256)
     c = ost.ctl(seq, con=rng.chance(1, 8), uns=rng.chance(1, 12), fir=not rng.chance(1, 12), fin=not rng.chance(1, 12))
     k = rng.below(20)
     if k == 0: return bytes([c])
+    if k <= 4 and fc in AFFINITY:
+        return bytes([c, fc]) + near_valid_objects(rng, fc, maxlen - 2)
     return bytes([c, fc]) + hostile_objects(rng, fc, maxlen - 2)
 
 
